@@ -395,7 +395,7 @@ func TestC07(t *testing.T) {
 	deadline := ev.Deadline(8 * time.Minute)
 	for _, sc := range scs {
 		x := &sched.Explorer{Bound: bound, Report: rep, Deadline: deadline, Scenario: sc.String(), Run: func(c *sched.Chooser) sched.Result { return runOne(t, sc, c) }}
-		if !x.Explore() {
+		if !x.ExploreOrReplay() {
 			rep.NotExhaustive("deadline or violation cap in " + sc.String())
 			break
 		}
